@@ -1,19 +1,41 @@
-// C15 schedule-replay harness.  Real threads operate on one real vita::cache; a cooperative
-// scheduler lets exactly one of them advance at a time from one scheduling point to the next.
-// Scheduling points inside the cache's critical sections come from the guarded hook
-// vita::verif_hook::sched_point (src/kernel/cache.cc, -DVITA_VERIF):
-//   find: 10 after the shared lock, 11 after the comparison (before the copy and the release)
-//   insert: 20 / 21    clear(): 30 / 31    clear(key): 40 / 41   (after acquisition / before release)
-// plus one harness-level point (12) between find() returning and the caller using the result.
+// C15 schedule harness: systematic exploration and random replay of thread interleavings on the REAL
+// vita::cache / vita::evaluator_proxy.
 //
-// The harness chooses the schedule itself (seeded), because what it may do next depends on what the
-// real threads did (a thread that does not get the lock is "pending"), and prints the trace
-//     <macro step> = <observed outcome>
-// which lean/Vita/C15/Driver.lean checks against the model, transition by transition.  Its own
-// oracle: every lookup result is nothing, or L equal words that encode the looked-up key and the id
-// of an insert that was started under that key (`| ok` / `| BAD <why>` at the end of rcopy lines).
+// Real threads operate on one real cache (or one real evaluator_proxy); a cooperative scheduler lets
+// exactly one of them advance at a time from one scheduling point to the next.  Scheduling points:
+//   * inside the cache's critical sections, from the guarded hook vita::verif_hook::sched_point
+//     (src/kernel/cache.cc, -DVITA_VERIF):  find 10 (lock taken) / 11 (compared, before copy+release),
+//     insert 20 / 21, clear() 30 / 31, clear(key) 40 / 41 (after acquisition / before release);
+//   * inside load / save, from the stream the harness hands them: load parks when it starts reading
+//     (50, the lock is held) and before every further entry (51.. : the previous entry is in the
+//     table); save parks at its first write (60) and after the header / after entries (61..);
+//   * harness level: 12 between find() returning and the caller using the result, 70 inside the
+//     evaluator that evaluator_proxy::operator() calls on a miss (NO lock may be held there),
+//     71 when the proxy has returned.
 //
-// usage: c15_sched <seed> <schedules> <max-blocked-probes>
+// Two phases per run:
+//   A  systematic: for a list of small configurations (2-3 threads x 1-3 operations, keys that share
+//      a slot and keys that do not, preloaded entries, seal at UINT_MAX, proxy calls) a depth-first
+//      enumeration of ALL schedules with at most <pb> preemptions (stateless: every schedule is
+//      re-executed from scratch on fresh threads and a fresh cache).  A transition is offered only if
+//      the lock discipline EXTRACTED from cache.cc (argv, from tools/translate_cache_locks.py) lets the
+//      thread have the lock - so with "find takes no lock" the lookups are driven into the writers'
+//      critical sections without any timing;
+//   B  random schedules on random configurations which also start operations that must block
+//      (probes): the thread has to stay blocked for the probe time and must be woken by the release.
+//
+// Output: one line per macro step  `<step> = <observed outcome>[ | <oracle verdict>]`  (checked, line
+// by line, against the Lean model by lean/Vita/C15/Driver.lean) and `#` comment lines.  Oracle of the
+// harness itself: every lookup / proxy result / saved entry is nothing or L equal words that name the
+// right key and a store that was started under it.  An acquisition that the specification of the
+// readers-writer lock forbids is annotated `ovl <0|1>` (1: the two critical sections touch the same
+// slot / the seal with at least one write - a data race at hook granularity).
+// Timing never decides against the code: a step that must succeed is awaited for minutes, only steps
+// expected to block are probed for a short time, and a thread found blocked is accepted as blocked.
+//
+// usage: c15_sched <seed> <dfs-cap-per-config> <random-configs> <random-schedules> <max-probes> <disc> <seal-atomic> <pb>
+//        disc = 7 characters: lock of find, reference? (0/1), insert, clear(), clear(key), save, load
+//               N none, S shared, X exclusive, U unknown (not the table's mutex)
 #include "common/verif.h"
 
 #include "kernel/vita.h"
@@ -21,6 +43,7 @@
 #include <atomic>
 #include <chrono>
 #include <condition_variable>
+#include <functional>
 #include <mutex>
 #include <set>
 #include <thread>
@@ -33,29 +56,39 @@ using vita::hash_t;
 std::mutex G;
 std::condition_variable CV;
 
-enum class op_t {none, find, insert, clear, clearkey, quit};
+enum class op_t {none, find, insert, clear, clearkey, save, load, proxy, quit};
+
+struct opd
+{
+  op_t op = op_t::none;
+  unsigned key = 0;                 // find / insert / clearkey / proxy
+  unsigned vid = 0;                 // insert / proxy: id of the value
+  unsigned seal = 1;                // load
+  bool bad = false;                 // load: the image announces one entry more than it holds
+  std::vector<std::pair<unsigned, unsigned>> entries;   // load: (key, id)
+};
 
 struct worker
 {
   int id = 0;
   std::thread th;
   // protected by G
-  op_t op = op_t::none;
-  unsigned key = 0, vid = 0;
+  opd cmd;
+  bool has_cmd = false;
   int go = 0;
   unsigned long arrivals = 0;   // incremented whenever the thread parks or finishes its operation
   bool parked = false;
   int point = 0;
-  bool busy = false;
-  std::string result;
+  std::string result;           // find / proxy: the value; save: the text; load: "1" / "0"
 };
 
 thread_local worker *tl_worker = nullptr;
+thread_local bool tl_quiet = false;     // the thread is working on a private object: no scheduling points
 
 void park(int point)
 {
   worker *w(tl_worker);
-  if (!w) return;
+  if (!w || tl_quiet) return;
   std::unique_lock lk(G);
   w->parked = true;
   w->point = point;
@@ -66,11 +99,12 @@ void park(int point)
   w->parked = false;
 }
 
-vita::cache *the_cache = nullptr;
+const unsigned BITS = 7;
 unsigned L = 3;
-const unsigned BITS = 4;
 
-hash_t key_of(unsigned k) { return hash_t(0x5ull + (std::uint64_t(k) << BITS), 1000 + k); }
+unsigned slot_of(unsigned k) { return k < 8 ? 5 : (k & 15); }
+hash_t key_of(unsigned k) { return hash_t(std::uint64_t(slot_of(k)) + (std::uint64_t(k) << BITS), 1000 + k); }
+unsigned key_from(std::uint64_t d0) { return unsigned(d0 >> BITS); }
 double word_of(unsigned k, unsigned id) { return double(k * 100000u + id); }
 
 fitness_t value_of(unsigned k, unsigned id)
@@ -80,68 +114,782 @@ fitness_t value_of(unsigned k, unsigned id)
   return fitness_t(v);
 }
 
-std::string show(const fitness_t &f)
+std::string show_words(const fitness_t &f, const char *sep)
 {
-  if (!f.size()) return "r none";
-  std::string s("r");
+  std::string s;
   for (std::size_t i(0); i < f.size(); ++i)
   {
     const auto w(static_cast<unsigned long long>(f[i]));
-    s += " " + std::to_string(w / 100000u) + ":" + std::to_string(w % 100000u);
+    s += (i ? sep : "") + std::to_string(w / 100000u) + ":" + std::to_string(w % 100000u);
   }
   return s;
 }
+std::string show(const fitness_t &f) { return f.size() ? "r " + show_words(f, " ") : "r none"; }
+
+// ---- streams with scheduling points ------------------------------------------------------------
+class park_inbuf : public std::streambuf
+{
+public:
+  park_inbuf(std::string d, std::vector<std::size_t> m) : data_(std::move(d)), marks_(std::move(m)) {}
+protected:
+  int_type underflow() override
+  {
+    if (gptr() && gptr() < egptr()) return traits_type::to_int_type(*gptr());
+    if (seg_ + 1 >= marks_.size()) return traits_type::eof();
+    park(50 + int(std::min<std::size_t>(seg_, 9)));
+    char *b(data_.data());
+    setg(b + marks_[seg_], b + marks_[seg_], b + marks_[seg_ + 1]);
+    ++seg_;
+    if (gptr() == egptr()) return underflow();
+    return traits_type::to_int_type(*gptr());
+  }
+private:
+  std::string data_;
+  std::vector<std::size_t> marks_;   // segment boundaries: 0, end of header+entry 0, end of entry 1, ..., size
+  std::size_t seg_ = 0;
+};
+
+class park_outbuf : public std::streambuf
+{
+public:
+  std::string text;
+protected:
+  int_type overflow(int_type ch) override
+  {
+    if (first_) { first_ = false; park(60); }
+    if (ch == traits_type::eof()) return 0;
+    text.push_back(char(ch));
+    if (ch == '\n' && ++newlines_ % 2 == 0 && parks_ < 2) { ++parks_; park(61); }
+    return ch;
+  }
+private:
+  bool first_ = true;
+  int newlines_ = 0, parks_ = 0;
+};
+
+// ---- the shared object: a bare cache, or the cache inside an evaluator_proxy ---------------------
+struct prog_t            // the "individual" handed to the proxy: only its signature matters
+{
+  unsigned k = 0, vid = 0;
+  hash_t signature() const { return key_of(k); }
+};
+
+class eval_t : public vita::evaluator<prog_t>
+{
+public:
+  fitness_t operator()(const prog_t &p) override
+  {
+    park(70);                       // evaluating: evaluator_proxy must hold no lock here
+    return value_of(p.k, p.vid);
+  }
+};
+
+struct shared_t
+{
+  std::unique_ptr<vita::cache> cache;
+  std::unique_ptr<vita::evaluator_proxy<prog_t, eval_t>> proxy;
+
+  void clear() { if (proxy) proxy->clear(); else cache->clear(); }
+  bool load(std::istream &in) { return proxy ? proxy->load(in) : cache->load(in); }
+  bool save(std::ostream &out) { return proxy ? proxy->save(out) : cache->save(out); }
+};
+shared_t *the_obj = nullptr;
 
 void body(worker *w)
 {
   tl_worker = w;
   for (;;)
   {
-    op_t op; unsigned k, id;
+    opd c;
     {
       std::unique_lock lk(G);
-      CV.wait(lk, [w] { return w->op != op_t::none; });
-      op = w->op; k = w->key; id = w->vid;
+      CV.wait(lk, [w] { return w->has_cmd; });
+      c = w->cmd;
     }
-    if (op == op_t::quit) return;
+    if (c.op == op_t::quit) return;
     std::string res;
-    switch (op)
+    switch (c.op)
     {
     case op_t::find:
     {
-      auto &&r(the_cache->find(key_of(k)));   // a reference into the table, or a value
-      park(12);                               // ... the caller uses it later
+      auto &&r(the_obj->cache->find(key_of(c.key)));   // a value - or, in a broken tree, a reference into the table
+      park(12);                                        // ... the caller uses it later
       const fitness_t copy(r);
       res = show(copy);
       break;
     }
-    case op_t::insert: the_cache->insert(key_of(k), value_of(k, id)); break;
-    case op_t::clear: the_cache->clear(); break;
-    case op_t::clearkey: the_cache->clear(key_of(k)); break;
+    case op_t::proxy:
+    {
+      prog_t p; p.k = c.key; p.vid = c.vid;
+      const fitness_t f((*the_obj->proxy)(p));
+      park(71);
+      res = show(f);
+      break;
+    }
+    case op_t::insert: the_obj->cache->insert(key_of(c.key), value_of(c.key, c.vid)); break;
+    case op_t::clear: the_obj->clear(); break;
+    case op_t::clearkey: the_obj->cache->clear(key_of(c.key)); break;
+    case op_t::save:
+    {
+      park_outbuf ob;
+      std::ostream os(&ob);
+      the_obj->save(os);
+      res = ob.text;
+      break;
+    }
+    case op_t::load:
+    {
+      // the image: built with the real save on a private cache (no assumption about the text format)
+      std::vector<std::string> parts;
+      std::string header;
+      {
+        tl_quiet = true;
+        for (const auto &e : c.entries)
+        {
+          vita::cache tmp(BITS);
+          tmp.insert(key_of(e.first), value_of(e.first, e.second));
+          std::ostringstream ss;
+          tmp.save(ss);
+          const std::string s(ss.str());
+          std::size_t p(s.find('\n'));
+          p = s.find('\n', p + 1);
+          parts.push_back(s.substr(p + 1));
+        }
+        header = std::to_string(c.seal) + " \n" + std::to_string(c.entries.size() + (c.bad ? 1 : 0)) + "\n";
+        tl_quiet = false;
+      }
+      std::string data(header);
+      std::vector<std::size_t> marks{0};
+      for (std::size_t i(0); i < parts.size(); ++i)
+      {
+        data += parts[i];
+        marks.push_back(data.size());
+      }
+      if (parts.empty()) marks.push_back(data.size());
+      park_inbuf ib(data, marks);
+      std::istream is(&ib);
+      res = the_obj->load(is) ? "1" : "0";
+      break;
+    }
     default: break;
     }
     std::unique_lock lk(G);
-    w->op = op_t::none;
-    w->busy = false;
+    w->has_cmd = false;
     w->result = res;
+    w->point = 0;
     ++w->arrivals;
     CV.notify_all();
   }
 }
 
 using ms = std::chrono::milliseconds;
-const ms SHORT(60), LONG(30000);
+const ms SHORT(60);
+ms LONG(600000);      // 10 minutes; 20 s when the extracted discipline is already known to be broken (the mirror of
+                      // the lock is then a guess, and whatever is concluded from a time-out is reported as a broken tie)
 
 // let `w` advance (give it a command or release it from its park) and wait for its next arrival
-bool advance(worker &w, ms patience, op_t cmd = op_t::none, unsigned k = 0, unsigned id = 0)
+bool advance(worker &w, ms patience, const opd *cmd = nullptr, unsigned long *seen = nullptr)
 {
   std::unique_lock lk(G);
   const auto before(w.arrivals);
-  if (cmd != op_t::none) { w.op = cmd; w.key = k; w.vid = id; w.busy = true; }
+  if (seen) *seen = before;
+  if (cmd) { w.cmd = *cmd; w.has_cmd = true; }
   else ++w.go;
   CV.notify_all();
   return CV.wait_for(lk, patience, [&] { return w.arrivals != before; });
 }
+
+// ---- configurations -------------------------------------------------------------------------------
+struct config
+{
+  unsigned L = 3;
+  bool proxy = false;
+  std::vector<opd> pre;                    // executed by thread 0, alone, before the interleaving
+  std::vector<std::vector<opd>> prog;      // per thread
+  std::string name;
+};
+
+opd mk(op_t op, unsigned key = 0) { opd o; o.op = op; o.key = key; return o; }
+opd mkload(unsigned seal, std::vector<unsigned> keys, bool bad = false)
+{
+  opd o; o.op = op_t::load; o.seal = seal; o.bad = bad;
+  for (auto k : keys) o.entries.push_back({k, 0});
+  return o;
+}
+const unsigned SEAL_MAX = 4294967295u;
+
+std::vector<config> core_configs()
+{
+  std::vector<config> cs;
+  auto add = [&](const char *name, unsigned l, bool proxy, std::vector<opd> pre, std::vector<std::vector<opd>> prog) {
+    config c; c.name = name; c.L = l; c.proxy = proxy; c.pre = std::move(pre); c.prog = std::move(prog); cs.push_back(c);
+  };
+  const op_t F(op_t::find), I(op_t::insert), C(op_t::clear), K(op_t::clearkey), S(op_t::save), P(op_t::proxy);
+  add("find|insert-same-slot", 3, false, {mk(I, 1)}, {{mk(F, 1)}, {mk(I, 2)}});
+  add("find|insert-other-slot", 3, false, {mk(I, 1)}, {{mk(F, 1)}, {mk(I, 9)}});
+  add("find|insert-same-key", 2, false, {mk(I, 1)}, {{mk(F, 1)}, {mk(I, 1)}});
+  add("find|clear", 3, false, {mk(I, 1)}, {{mk(F, 1)}, {mk(C)}});
+  add("find|clearkey", 1, false, {mk(I, 1)}, {{mk(F, 1)}, {mk(K, 1)}});
+  add("find|load", 3, false, {mk(I, 1)}, {{mk(F, 1)}, {mkload(1, {2, 9})}});
+  add("find|loadbad", 2, false, {mk(I, 1)}, {{mk(F, 1)}, {mkload(1, {2, 9}, true)}});
+  add("save|insert", 3, false, {mk(I, 1), mk(I, 9)}, {{mk(S)}, {mk(I, 2)}});
+  add("save|load", 2, false, {mk(I, 1), mk(I, 9)}, {{mk(S)}, {mkload(1, {2, 10})}});
+  add("wrap:find|clear", 5, false, {mkload(SEAL_MAX, {1, 9})}, {{mk(F, 1)}, {mk(C)}});
+  add("wrap:save|clear", 3, false, {mkload(SEAL_MAX, {1, 9})}, {{mk(S)}, {mk(C)}});
+  add("2x2", 3, false, {mk(I, 1)}, {{mk(F, 1), mk(F, 2)}, {mk(I, 2), mk(I, 1)}});
+  add("3 threads", 3, false, {}, {{mk(F, 1)}, {mk(I, 1)}, {mk(I, 2)}});
+  add("3 threads clear", 2, false, {mk(I, 1)}, {{mk(F, 1)}, {mk(I, 2)}, {mk(C)}});
+  add("proxy|proxy-same-key", 3, true, {}, {{mk(P, 1)}, {mk(P, 1)}});
+  add("proxy|proxy-same-slot", 3, true, {mk(P, 1)}, {{mk(P, 1)}, {mk(P, 2)}});
+  add("proxy|clear", 2, true, {mk(P, 1)}, {{mk(P, 1)}, {mk(C)}});
+  add("proxy|proxy|clear", 3, true, {}, {{mk(P, 1)}, {mk(P, 2)}, {mk(C)}});
+  add("proxy|load", 3, true, {}, {{mk(P, 1)}, {mkload(1, {1, 2})}});
+  add("proxy|save", 2, true, {mk(P, 9)}, {{mk(P, 1)}, {mk(S)}});
+  return cs;
+}
+
+config random_config(verif::splitmix &rng, bool thorough)
+{
+  static const unsigned lens[] = {1, 2, 3, 5};
+  static const unsigned keys[] = {1, 2, 3, 9, 10};
+  config c;
+  c.L = lens[rng.below(4)];
+  c.proxy = rng.chance(0.3);
+  c.name = c.proxy ? "random-proxy" : "random";
+  const unsigned n(2 + unsigned(rng.below(thorough ? 3 : 2)));
+  auto rnd_op = [&]() {
+    const auto x(rng.below(100));
+    const unsigned k(keys[rng.below(5)]);
+    if (c.proxy)
+    {
+      if (x < 60) return mk(op_t::proxy, k);
+      if (x < 75) return mk(op_t::clear);
+      if (x < 88) return mk(op_t::save);
+      return mkload(rng.chance(0.3) ? SEAL_MAX : 1 + unsigned(rng.below(2)), {keys[rng.below(5)], keys[rng.below(5)]},
+                    rng.chance(0.2));
+    }
+    if (x < 35) return mk(op_t::find, k);
+    if (x < 62) return mk(op_t::insert, k);
+    if (x < 72) return mk(op_t::clear);
+    if (x < 82) return mk(op_t::clearkey, k);
+    if (x < 91) return mk(op_t::save);
+    return mkload(rng.chance(0.3) ? SEAL_MAX : 1 + unsigned(rng.below(2)), {keys[rng.below(5)], keys[rng.below(5)]},
+                  rng.chance(0.2));
+  };
+  const unsigned npre(unsigned(rng.below(3)));
+  for (unsigned i(0); i < npre; ++i)
+    c.pre.push_back(c.proxy ? mk(op_t::proxy, keys[rng.below(5)]) : mk(op_t::insert, keys[rng.below(5)]));
+  c.prog.resize(n);
+  for (auto &p : c.prog)
+  {
+    const unsigned len(1 + unsigned(rng.below(thorough ? 3 : 2)));
+    for (unsigned i(0); i < len; ++i) p.push_back(rnd_op());
+  }
+  return c;
+}
+
+// ---- one schedule ---------------------------------------------------------------------------------
+std::string DISC("S0XXXSX");
+bool SEAL_ATOMIC(false);
+long maybe_left(0);      // acquisitions of a lock the translator could not identify ('U'): tried and timed, while this lasts
+unsigned long n_overlaps(0), n_bad(0);
+
+enum class tri {no, yes, maybe};
+
+struct cand { int t; bool probe; };
+
+// chooser(candidates, last thread that moved) -> index into candidates, or -1 to stop choosing (drain)
+using chooser_t = std::function<int(const std::vector<cand> &, int)>;
+
+class schedule
+{
+public:
+  schedule(const config &c, long *probes) : cfg(c), probes_left(probes), n(unsigned(c.prog.size())) {}
+
+  void run(const chooser_t &choose)
+  {
+    L = cfg.L;
+    shared_t obj;
+    if (cfg.proxy) obj.proxy = std::make_unique<vita::evaluator_proxy<prog_t, eval_t>>(eval_t(), BITS);
+    else obj.cache = std::make_unique<vita::cache>(BITS);
+    the_obj = &obj;
+    for (unsigned i(0); i < n; ++i)
+    {
+      ws.push_back(std::make_unique<worker>());
+      ws.back()->id = int(i);
+      ws.back()->th = std::thread(body, ws.back().get());
+    }
+    pc.assign(n, 0); pt.assign(n, 0); active.assign(n, false); cur.assign(n, opd());
+    ids.assign(16, {}); next_id.assign(16, 0);
+    std::cout << "init " << L << " " << n << " = init\n";
+
+    // the prefix: thread 0 alone
+    std::vector<opd> prog0(cfg.pre);
+    prog0.insert(prog0.end(), cfg.prog[0].begin(), cfg.prog[0].end());
+    progs = cfg.prog;
+    progs[0] = prog0;
+    while (!aborted && !(pc[0] >= cfg.pre.size() && !active[0])) step(0, false);
+    std::cout << "# interleaving\n";
+
+    int last(-1);
+    for (;;)
+    {
+      if (aborted) break;
+      std::vector<cand> cs(candidates());
+      if (cs.empty()) break;
+      const int i(choose(cs, last));
+      if (i < 0) break;
+      step(cs[i].t, cs[i].probe);
+      last = cs[i].t;
+    }
+    drain();
+    {
+      std::unique_lock lk(G);
+      for (auto &w : ws) { w->cmd.op = op_t::quit; w->has_cmd = true; w->go += 1000; }
+      CV.notify_all();
+    }
+    for (auto &w : ws) w->th.join();
+    the_obj = nullptr;
+  }
+
+  bool aborted = false;      // a thread that had to make progress did not: the schedule cannot be finished
+  unsigned preemptions = 0;
+
+  // transitions the extracted discipline lets happen now (+ probes while the budget lasts)
+  std::vector<cand> candidates() const
+  {
+    std::vector<cand> cs;
+    for (unsigned t(0); t < n; ++t)
+    {
+      if (int(t) == pending) continue;
+      if (!active[t] && pc[t] >= progs[t].size()) continue;
+      const char k(next_acquire(t));
+      if (k == 0) { cs.push_back({int(t), false}); continue; }
+      if (pending >= 0 && k != 'N') continue;     // no acquisition while a thread is queued on the lock: what the
+                                                  // implementation then does (reader or writer preference) is not specified
+      const tri e(enabled(k, int(t)));
+      if (e == tri::yes) cs.push_back({int(t), false});
+      else if (pending < 0 && (*probes_left > 0 || (e == tri::maybe && maybe_left > 0))) cs.push_back({int(t), true});
+    }
+    return cs;
+  }
+
+private:
+  const config &cfg;
+  long *probes_left;
+  unsigned n;
+  std::vector<std::unique_ptr<worker>> ws;
+  std::vector<std::vector<opd>> progs;
+  std::vector<std::size_t> pc;     // next operation of the thread's program
+  std::vector<int> pt;             // last scheduling point reached inside the current operation (0: none)
+  std::vector<bool> active;        // an operation is in progress
+  std::vector<opd> cur;
+  std::vector<std::set<unsigned>> ids;   // ids of the stores started per key
+  std::vector<unsigned> next_id;
+  int pending = -1;                // the one thread that is blocked in an acquisition
+  char pending_kind = 0;
+  unsigned long pending_arrivals = 0;   // its arrival counter when it was sent into the acquisition
+  std::uint64_t mseal = 1;         // mirror of seal_ (to know which clear() wraps)
+
+  // ---- the mirror of the lock --------------------------------------------------------------------
+  static char lock_of_point(const opd &o, int p, const std::string &d)
+  {
+    // the lock (by the discipline `d`) a thread holds when it is parked at point p
+    if (p == 10 || p == 11) return d[0];
+    if (p == 20 || p == 21) return d[2];
+    if (p == 30 || p == 31) return d[3];
+    if (p == 40 || p == 41) return d[4];
+    if (p >= 50 && p < 60) return d[6];
+    if (p >= 60 && p < 70) return d[5];
+    (void)o;
+    return 'N';
+  }
+  char holds(int t, const std::string &d) const { return active[t] ? lock_of_point(cur[t], pt[t], d) : 'N'; }
+
+  // the lock kind the thread's NEXT transition has to acquire (0: the next transition is no acquisition)
+  char next_acquire(int t, const std::string *dd = nullptr) const
+  {
+    const std::string &d(dd ? *dd : DISC);
+    if (!active[t])
+    {
+      switch (progs[t][pc[t]].op)
+      {
+      case op_t::find: case op_t::proxy: return d[0];
+      case op_t::insert: return d[2];
+      case op_t::clear: return d[3];
+      case op_t::clearkey: return d[4];
+      case op_t::save: return d[5];
+      case op_t::load: return d[6];
+      default: return 0;
+      }
+    }
+    if (cur[t].op == op_t::proxy && pt[t] == 70) return d[2];     // the proxy's insert
+    return 0;
+  }
+
+  tri enabled(char kind, int t, const std::string *dd = nullptr) const
+  {
+    const std::string &d(dd ? *dd : DISC);
+    bool any(false), anyx(false), anyu(false);
+    for (unsigned u(0); u < n; ++u)
+    {
+      if (int(u) == t) continue;
+      const char h(holds(int(u), d));
+      if (h != 'N') any = true;
+      if (h == 'X') anyx = true;
+      if (h == 'U') anyu = true;
+    }
+    if (kind == 'N') return tri::yes;
+    if (kind == 'U') return any ? tri::maybe : tri::yes;
+    if (anyu) return tri::maybe;
+    if (kind == 'S') return anyx ? tri::no : tri::yes;
+    return any ? tri::no : tri::yes;
+  }
+
+  // ---- which memory an operation touches (for the overlap annotation) ----------------------------
+  struct acc { std::set<unsigned> slots; bool all = false, wslots = false, rseal = false, wseal = false; };
+  acc access_of(const opd &o, int p) const
+  {
+    acc a;
+    const bool proxy_insert(o.op == op_t::proxy && (p == 20 || p == 21 || p == 70));
+    switch (o.op)
+    {
+    case op_t::find: a.slots = {slot_of(o.key)}; a.rseal = true; break;
+    case op_t::proxy: a.slots = {slot_of(o.key)}; a.rseal = true; a.wslots = proxy_insert; break;
+    case op_t::insert: a.slots = {slot_of(o.key)}; a.rseal = true; a.wslots = true; break;
+    case op_t::clear: a.wseal = true; if (mseal == SEAL_MAX) { a.all = true; a.wslots = true; } break;
+    case op_t::clearkey: a.slots = {slot_of(o.key)}; a.wslots = true; break;
+    case op_t::save: a.all = true; a.rseal = true; break;
+    case op_t::load: for (auto &e : o.entries) a.slots.insert(slot_of(e.first)); a.wslots = true; a.wseal = true; break;
+    default: break;
+    }
+    return a;
+  }
+  static bool conflict(const acc &a, const acc &b)
+  {
+    bool common(a.all ? (b.all || !b.slots.empty()) : b.all ? !a.slots.empty() : false);
+    for (auto s : a.slots) if (b.slots.count(s)) common = true;
+    if (common && (a.wslots || b.wslots)) return true;
+    const bool seal_a(a.rseal || a.wseal), seal_b(b.rseal || b.wseal);
+    return !SEAL_ATOMIC && seal_a && seal_b && (a.wseal || b.wseal);
+  }
+
+  // an acquisition by `t` has just succeeded: does the SPECIFICATION (shared for find/save, exclusive
+  // for the others) forbid it, and if so do the overlapping critical sections conflict?
+  std::string overlap_note(int t, char spec_kind, const opd &o, int p)
+  {
+    static const std::string canon("S0XXXSX");
+    bool forbidden(false), confl(false);
+    for (unsigned u(0); u < n; ++u)
+    {
+      if (int(u) == t || !active[u]) continue;
+      const char h(lock_of_point(cur[u], pt[u], canon));
+      if (h == 'N') continue;
+      if (spec_kind == 'X' || h == 'X')
+      {
+        forbidden = true;
+        if (conflict(access_of(o, p), access_of(cur[u], pt[u]))) confl = true;
+      }
+    }
+    if (!forbidden) return "";
+    ++n_overlaps;
+    return std::string(" | ovl ") + (confl ? "1" : "0");
+  }
+
+  // ---- oracle ------------------------------------------------------------------------------------
+  std::string judge_value(const std::string &res, unsigned key, bool must_have)
+  {
+    if (res == "r none") return must_have ? "BAD proxy-returned-nothing" : "ok";
+    const auto t2(verif::split(res));
+    if (t2.size() != L + 1) return "BAD wrong-length";
+    for (std::size_t i(1); i < t2.size(); ++i)
+    {
+      if (t2[i] != t2[1]) return "BAD torn-value";
+      const auto colon(t2[i].find(':'));
+      const unsigned kk(std::stoul(t2[i].substr(0, colon))), ii(std::stoul(t2[i].substr(colon + 1)));
+      if (kk != key) return "BAD value-of-another-key";
+      if (kk >= ids.size() || !ids[kk].count(ii)) return "BAD value-never-stored";
+    }
+    return "ok";
+  }
+
+  // "s@<seal> <k>/<w>,<w>.. ..." from the text save wrote; verdict in *v
+  std::string parse_save(const std::string &text, std::string *v)
+  {
+    std::istringstream in(text);
+    *v = "ok";
+    unsigned long long seal(0), num(0);
+    if (!(in >> seal >> num)) { *v = "BAD save-header"; return "s@?"; }
+    std::string out("s@" + std::to_string(seal));
+    unsigned long long got(0);
+    for (;;)
+    {
+      hash_t h;
+      if (!h.load(in)) break;
+      fitness_t f;
+      if (!f.load(in)) { *v = "BAD save-entry-truncated"; break; }
+      ++got;
+      const unsigned k(key_from(h.data[0]));
+      out += " " + std::to_string(k) + "/" + show_words(f, ",");
+      if (!(h == key_of(k))) { *v = "BAD save-entry-unknown-key"; continue; }
+      const std::string j(judge_value(show(f), k, true));
+      if (j != "ok" && *v == "ok") *v = j + "-in-saved-entry";
+    }
+    if (got != num && *v == "ok") *v = "BAD save-count-differs";
+    return out;
+  }
+
+  // ---- one macro step of thread t -----------------------------------------------------------------
+  void emit(const std::string &s) { std::cout << s << "\n"; if (s.find(" BAD ") != std::string::npos) ++n_bad; }
+
+  void after_release(std::string &out)
+  {
+    // the pending thread may get the lock now; it has "arrived" when it is parked at its first point
+    if (pending < 0) return;
+    worker &p(*ws[pending]);
+    const tri can(enabled(pending_kind, pending));
+    bool arrived;
+    {
+      std::unique_lock lk(G);
+      arrived = CV.wait_for(lk, can == tri::yes ? LONG : SHORT, [&] { return p.arrivals != pending_arrivals; });
+    }
+    if (arrived)
+    {
+      out += " woke " + std::to_string(pending);
+      const int t(pending);
+      pending = -1;
+      {
+        std::unique_lock lk(G);
+        pt[t] = p.parked ? p.point : 0;
+      }
+    }
+  }
+
+  void start(int t, bool probe)
+  {
+    opd o(progs[t][pc[t]]);
+    const std::string ts(std::to_string(t));
+    std::string name;
+    char spec('X');
+    switch (o.op)
+    {
+    case op_t::find: name = "facq " + ts + " " + std::to_string(o.key); spec = 'S'; break;
+    case op_t::proxy:
+      o.vid = next_id[o.key]++;
+      name = "pacq " + ts + " " + std::to_string(o.key); spec = 'S'; break;
+    case op_t::insert:
+      o.vid = next_id[o.key]++;
+      ids[o.key].insert(o.vid);
+      name = "wacq " + ts + " " + std::to_string(o.key) + " " + std::to_string(o.vid); break;
+    case op_t::clear: name = "cacq " + ts; break;
+    case op_t::clearkey: name = "kacq " + ts + " " + std::to_string(o.key); break;
+    case op_t::save: name = "sacq " + ts; spec = 'S'; break;
+    case op_t::load:
+      name = "lacq " + ts + " " + std::to_string(o.seal) + " " + (o.bad ? "0" : "1");
+      for (auto &e : o.entries)
+      {
+        e.second = next_id[e.first]++;
+        ids[e.first].insert(e.second);
+        name += " " + std::to_string(e.first) + ":" + std::to_string(e.second);
+      }
+      break;
+    default: break;
+    }
+    cur[t] = o; active[t] = true; pt[t] = 0; ++pc[t];
+    const tri e(enabled(next_acquire_kind(o), t));
+    unsigned long seen(0);
+    const bool got(advance(*ws[t], e == tri::yes ? LONG : SHORT, &o, &seen));
+    if (probe) { --*probes_left; if (e == tri::maybe) --maybe_left; }
+    if (got)
+    {
+      read_point(t);
+      emit(name + " = ok" + overlap_note(t, spec, o, pt[t]));
+      if (e == tri::no) emit("# discipline-mismatch: the extracted discipline says this acquisition must block");
+      after_arrival(t);
+    }
+    else if (e == tri::yes)
+    {
+      emit(name + " = blocked");
+      emit("stuck " + ts + " = BAD blocked-although-the-extracted-discipline-lets-it-in");
+      aborted = true;
+    }
+    else
+    {
+      emit(name + " = blocked");
+      pending = t; pending_kind = next_acquire_kind(o); pending_arrivals = seen;
+    }
+  }
+
+  static char next_acquire_kind(const opd &o)
+  {
+    switch (o.op)
+    {
+    case op_t::find: case op_t::proxy: return DISC[0];
+    case op_t::insert: return DISC[2];
+    case op_t::clear: return DISC[3];
+    case op_t::clearkey: return DISC[4];
+    case op_t::save: return DISC[5];
+    case op_t::load: return DISC[6];
+    default: return 'N';
+    }
+  }
+
+  void read_point(int t)
+  {
+    std::unique_lock lk(G);
+    pt[t] = ws[t]->parked ? ws[t]->point : 0;
+    if (!ws[t]->has_cmd) pt[t] = 0;
+  }
+  bool finished(int t) { std::unique_lock lk(G); return !ws[t]->has_cmd; }
+  std::string result(int t) { std::unique_lock lk(G); return ws[t]->result; }
+
+  // an operation that has no scheduling point at all would be finished on arrival
+  void after_arrival(int t)
+  {
+    if (finished(t)) finish(t);
+  }
+
+  void finish(int t) { active[t] = false; pt[t] = 0; }
+
+  void step(int t, bool probe)
+  {
+    if (aborted) return;
+    if (!active[t]) { start(t, probe); return; }
+    worker &w(*ws[t]);
+    const std::string ts(std::to_string(t));
+    const int from(pt[t]);
+    const opd &o(cur[t]);
+    // the proxy's insert is an acquisition in the middle of the operation
+    if (o.op == op_t::proxy && from == 70)
+    {
+      ids[o.key].insert(o.vid);
+      const tri e(enabled(DISC[2], t));
+      const std::string name("wacq " + ts + " " + std::to_string(o.key) + " " + std::to_string(o.vid));
+      unsigned long seen(0);
+      const bool got(advance(w, e == tri::yes ? LONG : SHORT, nullptr, &seen));
+      if (probe) { --*probes_left; if (e == tri::maybe) --maybe_left; }
+      if (got) { read_point(t); emit(name + " = ok" + overlap_note(t, 'X', o, pt[t])); }
+      else if (e == tri::yes)
+      {
+        emit(name + " = blocked");
+        emit("stuck " + ts + " = BAD blocked-although-the-extracted-discipline-lets-it-in");
+        aborted = true;
+      }
+      else { emit(name + " = blocked"); pending = t; pending_kind = DISC[2]; pending_arrivals = seen; }
+      return;
+    }
+    if (!advance(w, LONG))
+    {
+      emit("stuck " + ts + " = BAD thread-made-no-progress");
+      aborted = true;
+      return;
+    }
+    read_point(t);
+    const int to(pt[t]);
+    const bool fin(finished(t));
+    std::string out("ok");
+    switch (o.op)
+    {
+    case op_t::find:
+      if (from == 10) emit("fcmp " + ts + " = ok");
+      else if (from == 11) { after_release(out); emit("fret " + ts + " = " + out); }
+      else
+      {
+        const std::string res(result(t));
+        emit("rcopy " + ts + " = " + res + " | " + judge_value(res, o.key, false));
+      }
+      break;
+    case op_t::proxy:
+      if (from == 10) emit("fcmp " + ts + " = ok");
+      else if (from == 11)
+      {
+        after_release(out);
+        emit("fret " + ts + " = " + out);
+        if (to == 70) emit("peval " + ts + " = ok");
+      }
+      else if (from == 20) emit("wwr " + ts + " = ok");
+      else if (from == 21) { after_release(out); emit("wrel " + ts + " = " + out); }
+      else if (from == 71)
+      {
+        const std::string res(result(t));
+        emit("pret " + ts + " = " + res + " | " + judge_value(res, o.key, true));
+      }
+      break;
+    case op_t::insert:
+      if (from == 20) emit("wwr " + ts + " = ok");
+      else { after_release(out); emit("wrel " + ts + " = " + out); }
+      break;
+    case op_t::clear:
+      if (from == 30) { mseal = mseal == SEAL_MAX ? 1 : mseal + 1; emit("cinv " + ts + " = ok"); }
+      else { after_release(out); emit("crel " + ts + " = " + out); }
+      break;
+    case op_t::clearkey:
+      if (from == 40) emit("kinv " + ts + " = ok");
+      else { after_release(out); emit("krel " + ts + " = " + out); }
+      break;
+    case op_t::save:
+      if (!fin) emit("spt " + ts + " = ok");
+      else
+      {
+        after_release(out);
+        emit("srel " + ts + " = " + out);
+        std::string v;
+        const std::string e(parse_save(result(t), &v));
+        emit("sres " + ts + " = " + e + " | " + v);
+      }
+      break;
+    case op_t::load:
+      if (!fin) emit("lent " + ts + " = ok");
+      else
+      {
+        const std::string r(result(t));
+        if (r == "1") mseal = o.seal;
+        after_release(out);
+        emit("lrel " + ts + " = " + out);
+        emit("lres " + ts + " = " + r + " | " + (r == (o.bad ? "0" : "1") ? "ok" : "BAD load-result"));
+      }
+      break;
+    default: break;
+    }
+    if (fin) finish(t);
+  }
+
+  void drain()
+  {
+    // finish every operation in progress and every operation still to start (no more choices)
+    for (bool again(true); again && !aborted;)
+    {
+      again = false;
+      for (unsigned t(0); t < n; ++t)
+      {
+        if (int(t) == pending) continue;
+        if (active[t])
+        {
+          if (next_acquire(int(t)) != 0 && pending >= 0) continue;      // one queued thread at a time
+          step(int(t), false); again = true;
+        }
+        else if (pc[t] < progs[t].size() && pending < 0 && enabled(next_acquire(int(t)), int(t)) == tri::yes)
+        { step(int(t), false); again = true; }
+      }
+      if (!again && pending >= 0)
+      {
+        // nobody left to release the lock: the pending thread must have it by now
+        const int p(pending);
+        std::string out;
+        after_release(out);
+        if (pending >= 0)
+        {
+          emit("stuck " + std::to_string(p) + " = BAD pending-thread-never-got-the-lock");
+          aborted = true;
+          // let it go anyway so that the threads can be joined
+          break;
+        }
+        emit("stuck " + std::to_string(p) + " = BAD pending-thread-woke-without-a-release");
+        again = true;
+      }
+    }
+  }
+};
 
 }  // namespace
 
@@ -149,12 +897,20 @@ int main(int argc, char **argv)
 {
   vita::log::reporting_level = vita::log::lOFF;
   const std::uint64_t seed(argc > 1 ? std::stoull(argv[1]) : 1);
-  const unsigned schedules(argc > 2 ? std::stoul(argv[2]) : 20);
-  long probes_left(argc > 3 ? std::stol(argv[3]) : 100);
+  const unsigned long dfs_cap(argc > 2 ? std::stoul(argv[2]) : 100);
+  const unsigned rnd_configs(argc > 3 ? std::stoul(argv[3]) : 4);
+  const unsigned rnd_schedules(argc > 4 ? std::stoul(argv[4]) : 20);
+  long probes(argc > 5 ? std::stol(argv[5]) : 60);
+  if (argc > 6 && std::strlen(argv[6]) == 7) DISC = argv[6];
+  SEAL_ATOMIC = argc > 7 && std::string(argv[7]) == "1";
+  if (DISC.find_first_of("NU") != std::string::npos || DISC[1] == '1') LONG = ms(20000);
+  const unsigned pb(argc > 8 ? std::stoul(argv[8]) : 2);
+  const bool thorough(dfs_cap >= 1000);
+  maybe_left = 3 * probes;
   verif::splitmix rng(seed);
   vita::verif_hook::sched_callback = park;
 
-  // single-threaded form of the defect: the result of find must not change under a later insert
+  // single-threaded form of the reference defect: the result of find must not change under a later insert
   {
     L = 3;
     vita::cache c(BITS);
@@ -165,192 +921,72 @@ int main(int argc, char **argv)
     std::cout << "single = " << show(now) << " | " << (show(now) == "r 1:0 1:0 1:0" ? "ok" : "BAD result-of-find-changed-by-a-later-insert") << "\n";
   }
 
-  for (unsigned sc(0); sc < schedules; ++sc)
+  // ---- phase A: systematic ------------------------------------------------------------------------
+  std::vector<config> cfgs(core_configs());
+  for (unsigned i(0); i < rnd_configs; ++i) cfgs.push_back(random_config(rng, thorough));
+  long no_probes(0);
+  unsigned long total(0);
+  for (std::size_t ci(0); ci < cfgs.size(); ++ci)
   {
-    const bool witness(sc == 0);
-    static const unsigned lens[] = {1, 2, 3, 5};
-    L = witness ? 3 : lens[rng.below(4)];
-    const unsigned n(witness ? 2 : 2 + rng.below(4));
-    const unsigned nkeys(witness ? 2 : 1 + rng.below(3));
-    vita::cache cache(BITS);
-    the_cache = &cache;
-    std::vector<std::unique_ptr<worker>> ws;
-    for (unsigned i(0); i < n; ++i)
+    const config &cfg(cfgs[ci]);
+    struct frame { std::vector<int> cands; std::size_t idx; };
+    std::vector<frame> stack;
+    unsigned long count(0);
+    bool complete(false), nondet(false);
+    for (;;)
     {
-      ws.push_back(std::make_unique<worker>());
-      ws.back()->id = int(i);
-      ws.back()->th = std::thread(body, ws.back().get());
-    }
-    std::cout << "init " << L << " " << n << " 0 = init\n";
-
-    // mirror of who holds what (the harness's own bookkeeping, used to choose patience only)
-    std::set<int> readers, writers;
-    int pending(-1); bool pending_shared(false);
-    std::vector<int> phase(n, 0);        // 0 idle; else next macro step of the current operation
-    std::vector<op_t> cur(n, op_t::none);
-    std::vector<unsigned> curk(n, 0);
-    std::vector<std::set<unsigned>> ids(8);   // ids of the inserts started per key
-    std::vector<unsigned> next_id(8, 0);
-
-    auto enabled = [&](bool shared, int t) {
-      if (shared) return writers.empty();
-      for (int r : readers) if (r != t) return false;
-      return writers.empty();
-    };
-    auto after_release = [&](std::string &out) {
-      // the pending thread may get the lock now; it is "arrived" when it is parked at its first point
-      if (pending < 0) return;
-      worker &p(*ws[pending]);
-      const bool can(enabled(pending_shared, pending));
-      bool arrived;
-      {
-        std::unique_lock lk(G);
-        arrived = CV.wait_for(lk, can ? LONG : SHORT, [&] { return p.parked; });
-      }
-      if (arrived)
-      {
-        out += " woke " + std::to_string(pending);
-        (pending_shared ? readers : writers).insert(pending);
-        phase[pending] = 2;
-        pending = -1;
-      }
-    };
-    auto acquire = [&](int t, op_t op, unsigned k, unsigned id, const std::string &name) {
-      const bool shared(op == op_t::find);
-      const bool can(enabled(shared, t));
-      const bool maybe(can && shared && !readers.empty());   // a stricter lock may keep a reader out
-      const bool got(advance(*ws[t], can && !maybe ? LONG : SHORT, op, k, id));
-      cur[t] = op; curk[t] = k;
-      std::cout << name << " = " << (got ? "ok" : "blocked") << "\n";
-      if (got) { (shared ? readers : writers).insert(t); phase[t] = 2; }
-      else { pending = t; pending_shared = shared; phase[t] = 1; --probes_left; }
-    };
-    auto progress = [&](int t) {
-      worker &w(*ws[t]);
-      std::string out("ok");
-      const std::string ts(std::to_string(t));
-      switch (cur[t])
-      {
-      case op_t::find:
-        if (phase[t] == 2) { advance(w, LONG); std::cout << "fcmp " << ts << " = ok\n"; phase[t] = 3; }
-        else if (phase[t] == 3)
+      std::size_t depth(0);
+      unsigned preempt(0);
+      schedule s(cfg, &no_probes);
+      std::cout << "# config " << ci << " (" << cfg.name << ") schedule " << count << "\n";
+      s.run([&](const std::vector<cand> &cs, int last) {
+        std::vector<int> ts;
+        bool last_in(false);
+        for (auto &c : cs) if (c.t == last) last_in = true;
+        if (last_in) ts.push_back(last);
+        if (!(last_in && preempt >= pb))
+          for (auto &c : cs) if (c.t != last) ts.push_back(c.t);
+        if (depth < stack.size())
         {
-          advance(w, LONG);           // returns from find (copy + release), parks at 12
-          readers.erase(t);
-          after_release(out);
-          std::cout << "fret " << ts << " = " << out << "\n";
-          phase[t] = 4;
+          if (stack[depth].cands != ts) { nondet = true; return -1; }
         }
-        else
-        {
-          advance(w, LONG);           // the caller reads the result
-          std::string res;
-          { std::unique_lock lk(G); res = w.result; }
-          // oracle: nothing, or L equal words naming this key and an insert started under it
-          std::string verdict("ok");
-          if (res != "r none")
-          {
-            const auto t2(verif::split(res));
-            if (t2.size() != L + 1) verdict = "BAD wrong-length";
-            for (std::size_t i(1); i < t2.size() && verdict == "ok"; ++i)
-            {
-              if (t2[i] != t2[1]) verdict = "BAD torn-value";
-              const auto colon(t2[i].find(':'));
-              const unsigned kk(std::stoul(t2[i].substr(0, colon))), ii(std::stoul(t2[i].substr(colon + 1)));
-              if (kk != curk[t]) verdict = "BAD value-of-another-key";
-              else if (!ids[kk].count(ii)) verdict = "BAD value-never-stored";
-            }
-          }
-          std::cout << "rcopy " << ts << " = " << res << " | " << verdict << "\n";
-          phase[t] = 0; cur[t] = op_t::none;
-        }
-        break;
-      case op_t::insert: case op_t::clear: case op_t::clearkey:
-      {
-        const char *pre(cur[t] == op_t::insert ? "w" : cur[t] == op_t::clear ? "c" : "k");
-        if (phase[t] == 2)
-        {
-          advance(w, LONG);
-          std::cout << pre << (cur[t] == op_t::insert ? "wr " : "inv ") << ts << " = ok\n";
-          phase[t] = 3;
-        }
-        else
-        {
-          advance(w, LONG);           // leaves the critical section, operation finished
-          writers.erase(t);
-          after_release(out);
-          std::cout << pre << "rel " << ts << " = " << out << "\n";
-          phase[t] = 0; cur[t] = op_t::none;
-        }
-        break;
-      }
-      default: break;
-      }
-    };
-    auto start = [&](int t, op_t op, unsigned k) {
-      const std::string ts(std::to_string(t));
-      if (op == op_t::find) acquire(t, op, k, 0, "facq " + ts + " " + std::to_string(k));
-      else if (op == op_t::insert)
-      {
-        const unsigned id(next_id[k]++);
-        ids[k].insert(id);
-        acquire(t, op, k, id, "wacq " + ts + " " + std::to_string(k) + " " + std::to_string(id));
-      }
-      else if (op == op_t::clear) acquire(t, op, 0, 0, "cacq " + ts);
-      else acquire(t, op, k, 0, "kacq " + ts + " " + std::to_string(k));
-    };
-
-    if (witness)
-    {
-      start(1, op_t::insert, 1); progress(1); progress(1);
-      start(0, op_t::find, 1); progress(0); progress(0);      // thread 0 now holds the result of find
-      start(1, op_t::insert, 2); progress(1); progress(1);
-      progress(0);
+        else stack.push_back({ts, 0});
+        const int t(stack[depth].cands[stack[depth].idx]);
+        if (last_in && t != last) ++preempt;
+        ++depth;
+        for (std::size_t i(0); i < cs.size(); ++i) if (cs[i].t == t) return int(i);
+        return -1;
+      });
+      ++count; ++total;
+      if (nondet || s.aborted) break;
+      while (!stack.empty() && stack.back().idx + 1 >= stack.back().cands.size()) stack.pop_back();
+      if (stack.empty()) { complete = true; break; }
+      ++stack.back().idx;
+      if (count >= dfs_cap) break;
     }
-    else
-    {
-      const unsigned steps(20 + rng.below(60));
-      for (unsigned i(0); i < steps; ++i)
-      {
-        const int t(int(rng.below(n)));
-        if (t == pending) continue;
-        if (phase[t] == 0)
-        {
-          if (pending >= 0) continue;               // one pending thread at a time
-          const auto c(rng.below(100));
-          const op_t op(c < 45 ? op_t::find : c < 80 ? op_t::insert : c < 90 ? op_t::clear : op_t::clearkey);
-          const bool shared(op == op_t::find);
-          const bool conflict(!enabled(shared, t) || (shared && !readers.empty()));
-          if (conflict && (probes_left <= 0 || rng.chance(0.5))) continue;
-          start(t, op, 1 + unsigned(rng.below(nkeys)));
-        }
-        else progress(t);
-      }
-    }
-    // drain: finish every operation
-    for (bool again(true); again;)
-    {
-      again = false;
-      for (unsigned t(0); t < n; ++t)
-        if (int(t) != pending && phase[t] != 0) { progress(int(t)); again = true; }
-      if (!again && pending >= 0)
-      {
-        // nobody left to release the lock: the pending thread must have it by now
-        const int p(pending);
-        std::string out;
-        after_release(out);
-        std::cout << "stuck " << p << " = BAD " << (pending >= 0 ? "pending-thread-never-got-the-lock" : "pending-thread-woke-without-a-release") << "\n";
-        if (pending >= 0) break;
-        again = true;
-      }
-    }
-    {
-      std::unique_lock lk(G);
-      for (auto &w : ws) { w->op = op_t::quit; w->go += 1000; }
-      CV.notify_all();
-    }
-    for (auto &w : ws) w->th.join();
-    the_cache = nullptr;
+    std::cout << "# explored config " << ci << " (" << cfg.name << ") schedules=" << count << " complete=" << (complete ? 1 : 0)
+              << (nondet ? " nondeterministic-replay" : "") << "\n";
   }
+  std::cout << "# systematic schedules=" << total << " configs=" << cfgs.size() << " pb=" << pb << "\n";
+
+  // ---- phase B: random schedules with probes ------------------------------------------------------
+  for (unsigned sc(0); sc < rnd_schedules; ++sc)
+  {
+    const config cfg(sc % 3 == 0 ? cfgs[rng.below(cfgs.size())] : random_config(rng, true));
+    schedule s(cfg, &probes);
+    std::cout << "# random schedule " << sc << " (" << cfg.name << ")\n";
+    unsigned steps(20 + unsigned(rng.below(60)));
+    s.run([&](const std::vector<cand> &cs, int) {
+      if (steps-- == 0) return -1;
+      // a probe is taken with probability 1/2 when one is offered
+      std::vector<int> idx;
+      for (std::size_t i(0); i < cs.size(); ++i) if (!cs[i].probe || rng.chance(0.5)) idx.push_back(int(i));
+      if (idx.empty()) for (std::size_t i(0); i < cs.size(); ++i) if (!cs[i].probe) idx.push_back(int(i));
+      if (idx.empty()) return -1;
+      return idx[rng.below(idx.size())];
+    });
+    if (s.aborted) break;
+  }
+  std::cout << "# done overlaps=" << n_overlaps << " bad=" << n_bad << "\n";
   return 0;
 }
